@@ -1,4 +1,5 @@
 """C05 — requests on a keep-alive connection are handled independently and in order.  DESIGN §4 C05."""
+import json
 from vlib import standard_pipeline, standard_replay, finish
 
 RULE = ("TLC enumerates every history of <=2/3 requests over the shapes of the Conn model (heads of 1-2 cells, bodies of 0-5 cells i.e. up to beyond the "
@@ -19,6 +20,10 @@ def run(ctx):
     standard_pipeline(ctx, sub="conn", mc=mc, gen=gen, trace=TRACE, random_n=600 if q else 12000, nontrivial=nontrivial,
                       post_gen=None, jobs=12, timeout_ms=90000, chunk=20000,
                       random_filter=lambda d: d["mode"] == "c05")
+    # the composition: connections of several requests to applications with fangs, every event of the real session loop (read, parsed,
+    # handled, sent, rejected, close; cfg(ohkami_verif) hooks) a step of Server.tla -- order of responses, nothing read after `close`
+    import props.server as server
+    server.composition(ctx, {"session"})
     return finish(ctx, rule=RULE, exhaustive=True,
                   assumptions=["each request is delivered as one segment (the quantifier of the property); a response is awaited before the next request is written on the socket",
                                "the echo handler returns everything observable of the request: method, path, query, all headers (Debug of the header map), payload digest, path param, context entry",
@@ -26,4 +31,11 @@ def run(ctx):
                   trusted=["harness/src/conn.rs", "harness/src/util.rs", "tokio loopback TCP"])
 
 def replay(ctx, path):
+    doc = json.load(open(path))
+    if isinstance(doc.get("scenario"), dict) and doc["scenario"].get("composition"):
+        import props.server as server
+        rc = server.replay_composition(ctx, doc)
+        if rc:
+            print("VIOLATION property=%s replay=%s" % (ctx.prop, path))
+        return rc
     return standard_replay(ctx, path, sub="conn", trace=TRACE)
